@@ -120,14 +120,14 @@ def write (d : Datum) : Text := writeAt 0 d
 
 The second writer of the tree, and the only one that quotes symbols: a symbol whose name contains a whitespace
 character (`char-whitespace?` = Rust's `char::is_whitespace`) is printed between bars, every `|` of the name
-preceded by a backslash (nothing else is escaped, in particular not the backslash); any other symbol is printed
+and every backslash preceded by a backslash (the backslash since /repo e9628a79: finding K12m); any other symbol is printed
 bare.  Strings and characters go through `write`; lists, vectors and pairs are printed structurally; the whole
 datum is preceded by a quote mark.  Modelled for the fragment the check generates (no nesting limit, no cycles,
 a pair's cdr is not a pair). -/
 
 def printSymBody : Text → Text
   | [] => []
-  | c :: cs => if c == '|' then '\\' :: '|' :: printSymBody cs else c :: printSymBody cs
+  | c :: cs => if c == '|' || c == '\\' then '\\' :: c :: printSymBody cs else c :: printSymBody cs
 
 def printSym (s : Text) : Text :=
   if s.any isWs then '|' :: (printSymBody s ++ ['|']) else s
